@@ -1,0 +1,61 @@
+//go:build verif
+
+package interp
+
+// Contracts for property C06 (defer / panic / recover). Checked by /verif/govc. Comments only.
+//
+// callCount / calledAt(k) are the ghost trace of reflect.Value.Call applications kept by the
+// verifier's model of Call (which may also panic).
+
+// runCfg's deferred function: every entry of f.deferred is invoked exactly once, in index order
+// (push-front at the producers makes that LIFO), on every way of leaving it; a panic that is still
+// pending afterwards is re-raised, otherwise the function returns normally.
+//@ lit runCfg calls:recover () ()
+//@   props C06
+//@   opt safety = off
+//@   opt ghost-calls = true
+//@   opt opaque-calls = *
+//@   opt preserve = F_interp_frame_deferred, F_interp_frame_id, F_interp_Interpreter_id, SE_Int
+//@   requires f != nil
+//@   panics when true
+//@   exits all-deferred-run: callCount == len(f.deferred) && forall(k, 0, len(f.deferred), calledAt(k) == f.deferred[k][0])
+//@   ensures returns-only-if-no-panic-pending: f.recovered == nil
+//@   canary callCount == len(f.deferred) + 1
+//@   loop 1 index i
+//@   invariant trace-is-prefix: callCount == i && forall(k, 0, i, calledAt(k) == f.deferred[k][0])
+//@   invariant deferred-stable: f.deferred == old(f.deferred)
+
+// The recover builtin reads and clears the pending panic of the *calling* frame only.
+//@ lit _recover exec#1 (f) (next)
+//@   props C06
+//@   opt safety = off
+//@   opt opaque-calls = *
+//@   opt preserve = F_interp_frame_recovered, F_interp_frame_anc
+//@   requires f != nil && f.anc != nil
+//@   ensures cleared: f.anc.recovered == nil
+//@   ensures own-frame-untouched: f.anc != f ==> f.recovered == old(f.recovered)
+//@   canary f.anc.recovered == old(f.anc.recovered)
+
+// Defer statements push the call record in front of the frame's defer stack.
+//@ lit call exec#1 (f) (next)
+//@   props C06
+//@   opt loops = havoc
+//@   opt safety = off
+//@   requires f != nil
+//@   ensures push-front: len(f.deferred) == old(len(f.deferred)) + 1 && forall(k, 0, old(len(f.deferred)), f.deferred[k+1] == old(f.deferred[k]))
+//@   ensures record-is-new: fresh(f.deferred[0])
+//@   canary len(f.deferred) == old(len(f.deferred))
+//@   loop 1 index i
+//@   invariant deferred-untouched: f.deferred == old(f.deferred) && forall(k, 0, len(f.deferred), f.deferred[k] == old(f.deferred[k]))
+
+//@ lit genBuiltinDeferWrapper exec#1 (f) (next)
+//@   props C06
+//@   opt loops = havoc
+//@   opt safety = off
+//@   requires f != nil
+//@   ensures push-front: len(f.deferred) == old(len(f.deferred)) + 1 && forall(k, 0, old(len(f.deferred)), f.deferred[k+1] == old(f.deferred[k]))
+//@   ensures record-is-new: fresh(f.deferred[0])
+//@   loop 1 index i
+//@   invariant deferred-untouched: f.deferred == old(f.deferred) && forall(k, 0, len(f.deferred), f.deferred[k] == old(f.deferred[k]))
+//@   loop 2 index j
+//@   invariant deferred-untouched: f.deferred == old(f.deferred) && forall(k, 0, len(f.deferred), f.deferred[k] == old(f.deferred[k]))
